@@ -81,4 +81,28 @@ Section SelToValue.
       + apply tbl_pairs_nodup; [exact Hnd|].
         intros q Hq. destruct (Hrange q Hq) as [[A _] [B _]]. split; assumption.
   Qed.
+
+  (* the same with the domain of the weights spelled out: one weight per source,
+     non-zero weight sum (the code divides by it) *)
+  Theorem selection_to_value_guarded (m : option (meth S E)) (evs : list E) (b : bool) :
+    wf_opt m (length srcs) ->
+    exists ev2 t2,
+      tdm_init argsort m srcs evs b = Ok (ev2, t2)
+      /\ List.Forall (fun k => (k < length srcs)%nat) (tbl_src t2)
+      /\ List.Forall (fun e => (e < length ev2)%nat) (tbl_evt t2)
+      /\ forall (erfR : R -> R) opa N ns a_k (f0 : rfactor) (fs : list rfactor),
+           length a_k = length srcs -> Rsum a_k <> 0 ->
+           wf_factor (tbl_evt t2) (length ev2) f0 ->
+           List.Forall (wf_factor (tbl_evt t2) (length ev2)) fs ->
+           pipe_value (RNum erfR) opa N ns true a_k (length ev2) (tbl_src t2) (tbl_evt t2) f0 fs
+           = logLambda_manual (opa - 1) N ns
+               (map (stacked_spec a_k
+                       (combine (combine (tbl_src t2) (tbl_evt t2))
+                                (rows_ratios (tbl_evt t2) f0 fs)))
+                    (seq 0 (length ev2))).
+  Proof.
+    intros Hwf. destruct (selection_to_value m evs b Hwf) as (ev2 & t2 & A & B & C & D).
+    exists ev2, t2. repeat (split; [assumption|]).
+    intros erfR opa N ns a_k f0 fs _ _ H0 Hfs. apply D; assumption.
+  Qed.
 End SelToValue.
